@@ -53,18 +53,52 @@ Theorem C07_filter_on_attributes :
 Proof. intros lname a rq op fail res H. exact (filter_on_attributes_inv lname a rq op fail res H). Qed.
 Print Assumptions C07_filter_on_attributes.
 
-(* (2) every outcome.  FULL STATEMENT (does NOT hold for create_authn_response on the unchanged code):
+(* (2) every outcome of create_authn_response, FULL STATEMENT: the construction ends in an error
+   (no AttributeStatement) or in an assertion satisfying (1) -- INCLUDING when a required attribute
+   or value cannot be supplied.  The model follows Server.setup_assertion as repaired by
+   proposed_fix/C07-1 (on the swallowed MissingValue the policy is applied again with the SP's
+   demands treated as wishes); the code before the repair is kept as *_before_fix below. *)
+Theorem C07_every_outcome :
+  forall matches lname (p : cpolicy) (identity : ava) (sp : str) (md : option mdview),
+    outcome_ok matches lname p sp md identity (authn_response matches lname p identity sp md).
+Proof. exact authn_response_every_outcome. Qed.
+Print Assumptions C07_every_outcome.
 
-     forall matches lname p identity sp md,
-       outcome_ok matches lname p sp md identity (authn_response matches lname p identity sp md)
+(* the same for Server.setup_assertion with either value of best_effort (False: error response) *)
+Theorem C07_setup_assertion_every_outcome :
+  forall matches lname p identity sp md best_effort,
+    outcome_ok matches lname p sp md identity (setup_assertion matches lname p identity sp md best_effort).
+Proof. exact setup_assertion_every_outcome. Qed.
+Print Assumptions C07_setup_assertion_every_outcome.
 
-   i.e. the construction ends in an error (no AttributeStatement) or in an assertion
-   satisfying (1), including when a required attribute / value is missing. *)
+(* the MissingValue path spelled out: what is asserted is the identity narrowed by Policy.filter
+   run with wishes only (never the identity itself unless the policy permits all of it), the
+   answer is never an error response and MissingValue never leaves create_authn_response *)
+Theorem C07_best_effort_is_policy_filtered :
+  forall matches lname p identity sp md,
+    restrict matches lname p identity sp md = Err MissingValue ->
+    authn_response matches lname p identity sp md =
+      match pfilter matches lname p identity sp md [] (fst (declared md) ++ snd (declared md)) with
+      | Ok f => Asserted (narrow identity f)
+      | Err e => Raised e
+      end.
+Proof. exact authn_response_missing_value. Qed.
+Print Assumptions C07_best_effort_is_policy_filtered.
+
+Theorem C07_authn_response_always_answers :
+  forall matches lname p identity sp md,
+    authn_response matches lname p identity sp md <> ErrorResponse /\
+    authn_response matches lname p identity sp md <> Raised MissingValue.
+Proof. exact authn_response_answers. Qed.
+Print Assumptions C07_authn_response_always_answers.
+
+(* ---- HISTORY: the code before proposed_fix/C07-1 (finding F3) ------------------------------ *)
 Definition no_rx (_ _ : str) : bool := false.
 Definition no_ln (_ _ : str) : option str := None.
 Definition w_sp : str := s2l "https://sp0.example.org/sp".
 Definition w_decl : decl := {| d_name := s2l "urn:oid:2.5.4.4"; d_nf := None; d_fn := Some (s2l "sn"); d_vals := [] |}.
-Definition w_md : option mdview := Some {| m_req := Some ([w_decl], []); m_ecs := [] |}.
+Definition w_opt : decl := {| d_name := s2l "urn:oid:2.5.4.42"; d_nf := None; d_fn := Some (s2l "givenName"); d_vals := [] |}.
+Definition w_md : option mdview := Some {| m_req := Some ([w_decl], [w_opt]); m_ecs := [] |}.
 Definition w_raw : rawpolicy :=
   Some [(DEFAULT, Some {| r_ec := None;
                           r_ar := Some (Some [(s2l "givenName", None); (s2l "sn", None)]);
@@ -73,9 +107,11 @@ Definition w_ar : restrictions := [(s2l "givenname", None); (s2l "sn", None)].
 Definition w_pol : cpolicy := Some [(DEFAULT, Some {| s_ec := None; s_ar := Some (Some w_ar); s_fail := None |})].
 Definition w_ident : ava := [(s2l "givenName", [s2l "Anna"]); (s2l "secret", [s2l "s3cret"])].
 
-Theorem C07_every_outcome_refuted :
+(* before the repair the full statement was FALSE: policy releases givenName and sn only, the SP
+   requires sn (absent) and wishes givenName; the whole identity incl. secret was asserted *)
+Theorem C07_every_outcome_before_fix_refuted :
   exists matches lname p identity sp md a,
-    authn_response matches lname p identity sp md = Asserted a /\
+    authn_response_before_fix matches lname p identity sp md = Asserted a /\
     ~ permitted matches lname p sp md identity a.
 Proof.
   exists no_rx, no_ln, w_pol, w_ident, w_sp, w_md, w_ident. split; [vm_compute; reflexivity|].
@@ -86,68 +122,50 @@ Proof.
   - right; left; reflexivity.
   - vm_compute in Hl. discriminate.
 Qed.
-Print Assumptions C07_every_outcome_refuted.
+Print Assumptions C07_every_outcome_before_fix_refuted.
 
-(* the witness is a configured policy, and the SP gets the secret attribute *)
+(* the witness is a configured policy; the repaired code asserts givenName only *)
 Example C07_witness_is_configurable :
   compile w_raw = Ok w_pol /\
   restrict no_rx no_ln w_pol w_ident w_sp w_md = Err MissingValue /\
-  authn_response no_rx no_ln w_pol w_ident w_sp w_md = Asserted w_ident /\
-  (* had the required attribute been there, the secret would have been withheld *)
-  authn_response no_rx no_ln w_pol ((s2l "sn", [s2l "X"]) :: w_ident) w_sp w_md = Asserted [(s2l "sn", [s2l "X"])].
+  authn_response_before_fix no_rx no_ln w_pol w_ident w_sp w_md = Asserted w_ident /\
+  authn_response no_rx no_ln w_pol w_ident w_sp w_md = Asserted [(s2l "givenName", [s2l "Anna"])] /\
+  setup_assertion no_rx no_ln w_pol w_ident w_sp w_md false = ErrorResponse /\
+  (* had the required attribute been there, the secret would have been withheld before the repair too *)
+  authn_response_before_fix no_rx no_ln w_pol ((s2l "sn", [s2l "X"]) :: w_ident) w_sp w_md
+    = Asserted [(s2l "sn", [s2l "X"]); (s2l "givenName", [s2l "Anna"])] /\
+  authn_response no_rx no_ln w_pol ((s2l "sn", [s2l "X"]) :: w_ident) w_sp w_md
+    = Asserted [(s2l "sn", [s2l "X"]); (s2l "givenName", [s2l "Anna"])].
 Proof. vm_compute. repeat split; reflexivity. Qed.
 Print Assumptions C07_witness_is_configurable.
 
-(* partial: every run in which the requirements can be met (restrict does not raise MissingValue) *)
-Theorem C07_every_outcome_partial :
+(* the defect exactly: before the repair the only assertion outside the permitted set was the whole,
+   untouched identity on the swallowed-MissingValue path -- and on that path it was ALWAYS asserted;
+   on every other run the repaired function does what the old one did *)
+Theorem C07_before_fix_characterised :
   forall matches lname p identity sp md,
-    restrict matches lname p identity sp md <> Err MissingValue ->
-    outcome_ok matches lname p sp md identity (authn_response matches lname p identity sp md).
-Proof. exact authn_response_partial. Qed.
-Print Assumptions C07_every_outcome_partial.
-
-(* the defect exactly: the only assertion outside the permitted set is the whole, untouched
-   identity on the swallowed-MissingValue path — and on that path it is ALWAYS what is asserted *)
-Theorem C07_every_outcome_characterised :
-  forall matches lname p identity sp md,
-    (forall a, authn_response matches lname p identity sp md = Asserted a ->
+    (forall a, authn_response_before_fix matches lname p identity sp md = Asserted a ->
        permitted matches lname p sp md identity a \/
        (restrict matches lname p identity sp md = Err MissingValue /\ a = identity)) /\
     (restrict matches lname p identity sp md = Err MissingValue ->
-       authn_response matches lname p identity sp md = Asserted identity).
+       authn_response_before_fix matches lname p identity sp md = Asserted identity) /\
+    (restrict matches lname p identity sp md <> Err MissingValue ->
+       forall b, setup_assertion matches lname p identity sp md b =
+                 setup_assertion_before_fix matches lname p identity sp md b).
 Proof.
-  intros matches lname p identity sp md. split.
-  - intros a. apply authn_response_characterised.
-  - apply authn_response_missing_value.
+  intros matches lname p identity sp md. split; [|split].
+  - intros a. apply authn_response_before_fix_characterised.
+  - apply authn_response_before_fix_missing_value.
+  - intros H b. apply setup_assertion_agrees_when_met; exact H.
 Qed.
-Print Assumptions C07_every_outcome_characterised.
+Print Assumptions C07_before_fix_characterised.
 
-(* without best_effort (what setup_assertion does when the flag is honoured) and for the
-   attribute authority the every-outcome statement holds in full *)
-Theorem C07_setup_assertion_without_best_effort :
-  forall matches lname p identity sp md,
-    outcome_ok matches lname p sp md identity (setup_assertion matches lname p identity sp md false).
-Proof. exact setup_assertion_no_best_effort. Qed.
-Print Assumptions C07_setup_assertion_without_best_effort.
-
+(* the attribute authority: an exception of apply_policy leaves create_attribute_response *)
 Theorem C07_attribute_response_every_outcome :
   forall matches lname p identity sp md,
     outcome_ok matches lname p sp md identity (attribute_response matches lname (Some p) identity sp md).
 Proof. exact attribute_response_every_outcome. Qed.
 Print Assumptions C07_attribute_response_every_outcome.
-
-(* the PROPOSED repair of setup_assertion (Proofs: setup_assertion_fixed — on the swallowed MissingValue
-   re-run Policy.filter with the requirements treated as wishes) satisfies the FULL every-outcome statement *)
-Theorem C07_suggested_fix_every_outcome :
-  forall matches lname p identity sp md best_effort,
-    outcome_ok matches lname p sp md identity (setup_assertion_fixed matches lname p identity sp md best_effort).
-Proof. exact setup_assertion_fixed_every_outcome. Qed.
-Print Assumptions C07_suggested_fix_every_outcome.
-
-Example C07_suggested_fix_on_witness :
-  setup_assertion_fixed no_rx no_ln w_pol w_ident w_sp w_md true = Asserted [].
-Proof. vm_compute. reflexivity. Qed.
-Print Assumptions C07_suggested_fix_on_witness.
 
 (* observation (not alarmed on): with NO aa policy configured create_attribute_response applies
    no policy object at all, not even the SP's declarations *)
@@ -194,6 +212,40 @@ Print Assumptions C07_ec_corner_on_todays_tables.
 Theorem C07_entity_category_tables : tables_equiv compiled_tables documented_ec = true.
 Proof. exact ec_tables_as_documented. Qed.
 Print Assumptions C07_entity_category_tables.
+
+(* (3) the entity-category clause, non-circular.  What post_entity_categories lets through is EXACTLY
+   what some row of a configured module entitles this SP to ([entitles]: the name is in the row, the row
+   key is the empty string or consists of categories of the SP, and for an only-required row the name is
+   the lower-cased friendly name of a REQUIRED declaration) *)
+Theorem C07_category_allowance_exact :
+  forall maps md rq a,
+    In a (post_entity_categories maps md rq) <->
+    exists m em row, md = Some m /\ In em maps /\ In row em /\ entitles (m_ecs m) (req_friendly rq) row a.
+Proof. exact post_ec_spec. Qed.
+Print Assumptions C07_category_allowance_exact.
+
+(* ... and for a policy compiled from its configuration over the REGENERATED Gen/EntityCat.v these rows
+   are rows of the hand-written documented table [documented_ec] of a module the configuration names
+   for this SP (its own entry when that has the key, else default) *)
+Theorem C07_category_allowance_documented :
+  forall raw p sp md rq allow a,
+    compile raw = Ok p -> get_entity_categories p sp md rq = Ok allow -> In a allow ->
+    exists names m mn dm row, configured_categories raw sp names /\ md = Some m /\ In mn names /\
+      lookup mn documented_ec = Some dm /\ In row dm /\ entitles (m_ecs m) (req_friendly rq) row a.
+Proof. exact get_ec_documented. Qed.
+Print Assumptions C07_category_allowance_documented.
+
+(* every outcome of create_authn_response, category clause against the documented table *)
+Theorem C07_every_outcome_documented_categories :
+  forall matches lname raw p identity sp md a,
+    compile raw = Ok p -> authn_response matches lname p identity sp md = Asserted a ->
+    forall allow, get_entity_categories p sp md (fst (declared md)) = Ok allow -> allow <> [] ->
+    forall n vs, In (n, vs) a ->
+      exists names m mn dm row, configured_categories raw sp names /\ md = Some m /\ In mn names /\
+        lookup mn documented_ec = Some dm /\ In row dm /\
+        entitles (m_ecs m) (req_friendly (fst (declared md))) row (lower n).
+Proof. exact authn_response_documented. Qed.
+Print Assumptions C07_every_outcome_documented_categories.
 
 (* non-vacuity: all three filters bite on one concrete configuration *)
 Definition mkd (n f : string) (vs : list (option str)) : decl :=
